@@ -181,7 +181,7 @@ func createRequestFormParam(openapi *openapi3.T, param definitions.FuncParam, op
 	// Add the validation to the schema
 	BuildSchemaValidation(propertySchemaRef, param.Validator, param.TypeMeta.Name)
 	// Set the description on the property schema itself
-	if propertySchemaRef.Value != nil {
+	if propertySchemaRef.Value != nil && propertySchemaRef.Ref == "" {
 		propertySchemaRef.Value.Description = param.Description
 	}
 	// Add the form parameter to the schema
